@@ -350,6 +350,7 @@ def replay_backtracking(viol):
 # ---------------------------------------------------------------- C06
 IDX_PROGRAM = """
 :- use_module(library(lists)).
+edge(-36028797018963968, min). edge(36028797018963967, max). edge(-36028797018963967, next). edge(0, zero).
 p2(1,a). p2(2,b). p2(_,c). p2(2,d). p2(3,e).
 p(2). p(foo). p(7).
 big(36028797018963968). big(bar).
@@ -370,7 +371,14 @@ def replay_index_keys(which, model):
                  ("Y is 1 ^ (-1), retractall(q(_)), assertz(q(1)), ( q(Y) -> show(yes) ; show(no) )",
                   "yes"),
                  # a later indexed block must still be considered (clause look-ahead)
-                 ("Y is 2^60-2^60+2, findall(T, p2(Y,T), L), show(L)", "[b,c,d]")]
+                 ("Y is 2^60-2^60+2, findall(T, p2(Y,T), L), show(L)", "[b,c,d]"),
+                 # the fixnum boundaries as clause keys, called with the literal and with a computed value
+                 ("findall(T, edge(-36028797018963968, T), L), show(L)", "[min]"),
+                 ("Y is -(2^55), findall(T, edge(Y, T), L), show(L)", "[min]"),
+                 ("findall(T, edge(36028797018963967, T), L), show(L)", "[max]"),
+                 ("Y is 2^55 - 1, findall(T, edge(Y, T), L), show(L)", "[max]"),
+                 ("Y is 2^80 - 2^80 - 2^55, findall(T, edge(Y, T), L), show(L)", "[min]"),
+                 ("Y is -(2^55) + 1, findall(T, edge(Y, T), L), show(L)", "[next]")]
     else:
         cases = [("Z is 2^55, ( big(Z) -> show(yes) ; show(no) )", "yes")]
     return run_cases(IDX_PROGRAM, cases, {"model": model, "class": which}, "C06",
